@@ -20,7 +20,8 @@ MIN_EVALS = {"quick": 1500, "thorough": 30000}
 MIN_EVENTS = {"accepted requests compared with a fresh object": 600,
               "rejected requests": 300,
               "rejected requests repeated": 200,
-              "requests through fit_model": 200}
+              "requests through fit_model": 200,
+              "last accepted request re-issued after a rejection": 60}
 TIMEOUT = {"quick": 900, "thorough": 3500}
 N_SEQ = {"quick": 26, "thorough": 600}     # per shard
 RULE = ("case = one sequence of 2..8 preprocessing requests (valid pipelines "
@@ -212,9 +213,18 @@ def run_sequence(rec, rng, cid):
     raw0 = raw_fp(idnt)
     hist = []
     prev = None
+    last_accepted = None
+    after_rejection = False
     for step in range(int(rng.integers(2, 9))):
         invalid = rng.random() < .35
-        if invalid:
+        if after_rejection and last_accepted is not None and \
+                rng.random() < .6:
+            # the pipeline that was in effect before the rejected request is
+            # requested again: it must really be (re-)applied
+            steps, options = copy.deepcopy(last_accepted)
+            what = "valid (last accepted request again, after a rejection)"
+            rec.event("last accepted request re-issued after a rejection")
+        elif invalid:
             steps, options, what = invalid_request(rng, req, opt)
         else:
             steps, options = valid_request(rng, req, opt)
@@ -271,7 +281,10 @@ def run_sequence(rec, rng, cid):
                           "re-applying the same pipeline: %s / columns "
                           "changed" % res2, case)
                 prev = (copy.deepcopy(steps), copy.deepcopy(options))
+                last_accepted = prev
+                after_rejection = False
         else:
+            after_rejection = True
             rec.event("rejected requests")
             rec.check(isinstance(fresh, str),
                       "rejected-but-fresh-object-accepts",
